@@ -6,6 +6,7 @@ CONSTANTS
   MaxBurst = 3
   MaxMsgs = 6
   Depth = 9
+  Focus = FALSE
 INVARIANT Inv
 VIEW view
 ACTION_CONSTRAINT EmitEdge
